@@ -333,7 +333,7 @@ def run(ctx):
     forced = 0
     stuck = 0
     for pa in pairs:
-        use = sch2 if thorough else rng.sample(sch2, min(len(sch2), 40))
+        use = rng.sample(sch2, min(len(sch2), 120 if thorough else 40))
         for s in use:
             res, evs, st = run_schedule(list(pa), s, baseline)
             forced += 1
@@ -370,7 +370,7 @@ def run(ctx):
     ctx.cov['error_report_schedules'] = len(block_sched)
     triples = [tuple(rng.choice(calls) for _ in range(3)) for _ in range(6 if thorough else 2)]
     for tr3 in triples:
-        for s in (sch3 if thorough else rng.sample(sch3, min(len(sch3), 30))):
+        for s in rng.sample(sch3, min(len(sch3), 200 if thorough else 30)):
             res, evs, st = run_schedule(list(tr3), s, baseline)
             forced += 1
             stuck += 1 if st else 0
@@ -383,12 +383,17 @@ def run(ctx):
                                    'expected': short(baseline[c]), 'got': short(got or 'None')})
     if stuck:
         ctx.note('%d forced schedules could not be followed to the end (thread finished early / timeout)' % stuck)
-    path = ctx.work / 'callslogs.json'
-    dump_json(path, logs)
-    tr = ctx.tlc('CallsTrace', env={'VERIF_TRACES': path}, name='callstrace')
-    if not tr.ok:
-        raise MachineryError('CallsTrace failed: %s' % tr.errors[:3])
-    acc = {x[0]: x[1] for x in tr.prints('ACC')}
+    acc = {}
+    LB = 400
+    for b0 in range(0, len(logs), LB):
+        path = ctx.work / ('callslogs_%d.json' % (b0 // LB))
+        dump_json(path, logs[b0:b0 + LB])
+        tr = ctx.tlc('CallsTrace', env={'VERIF_TRACES': path}, name='callstrace' + ('_%d' % (b0 // LB) if b0 else ''))
+        if not tr.ok:
+            raise MachineryError('CallsTrace failed: %s' % tr.errors[:3])
+        for x in tr.prints('ACC'):
+            acc[b0 + x[0]] = x[1]
+        path.unlink()
     for i in range(len(logs)):
         fl = acc.get(i + 1)
         if fl is None:
